@@ -154,8 +154,9 @@ CHECKS.update({
         technique="exhaustive enumeration of a constructor-closed type universe x bounded value domains on the real encoder/decoder (every value round-tripped, prefix-freedom and back-to-back decoding checked over all values)",
         text=("Every type of a universe closed under the provided constructors (primitives at every width, char, String, (), Duration, PathBuf, "
               "NonZero*, tuples to arity 4, arrays, Vec/VecDeque/LinkedList/HashMap/HashSet/BTreeMap/BTreeSet, Box/Rc/Arc/Cow/Cell/RefCell/"
-              "Wrapping/Reverse, Option/Result/Bound, ranges, derived generic structs and enums incl. skipped fields) to nesting depth 2 plus "
-              "depth-3 chains (~700 types), and every value of each type's domain (8/16-bit integers and bool exhaustively, wider integers every "
+              "Wrapping/Reverse, Option/Result/Bound, all range types, Box/Rc/Arc of [T]/str/Path, Cow, PhantomData, every NonZero and atomic width, "
+              "DashMap/DashSet, tuples to arity 12, arrays of length 0-4/32/33, generated derived structs and enums with #[serialize(skip)] on every "
+              "subset of 1-3 fields) to nesting depth 2 plus depth-3 chains (~870 types + the smallvec/bitvec feature build), and every value of each type's domain (8/16-bit integers and bool exhaustively, wider integers every "
               "value within +-2 of every 7-bit varint and zigzag boundary, chars at UTF-8 length boundaries, containers of length 0-3): "
               "decode(encode v) == v consuming exactly the written bytes; no encoding is a prefix of another value's (all values of a type sorted "
               "by encoding); sliding triples written back to back are read back in sequence."),
